@@ -1,3 +1,4 @@
+pub mod child;
 pub mod report;
 pub mod runner;
 pub mod sched;
